@@ -79,33 +79,29 @@ Notation k_run_tx := (k_run_tx H idkey acct_u64).
 
 Hypothesis Hd : keys_disjoint H idkey.
 
+Definition kf (a : nat) (i : N) : key := Hn H a (idkey i).
+Lemma k0_kf : forall i, k0 idkey i = kf 0 i. Proof. reflexivity. Qed.
+Lemma k1_kf : forall i, k1 H idkey i = kf 1 i. Proof. reflexivity. Qed.
+Lemma k2_kf : forall i, k2 H idkey i = kf 2 i. Proof. reflexivity. Qed.
+Lemma k3_kf : forall i, k3 H idkey i = kf 3 i. Proof. reflexivity. Qed.
+
 Lemma key_eqb : forall a b i' i, (a <= 3)%nat -> (b <= 3)%nat ->
-  N.eqb (kk a i') (kk b i) = (N.eqb i' i && Nat.eqb a b)%bool.
+  N.eqb (kf a i') (kf b i) = (N.eqb i' i && Nat.eqb a b)%bool.
 Proof.
-  intros a b i' i Ha Hb. destruct (N.eqb_spec (kk a i') (kk b i)) as [E|E].
+  intros a b i' i Ha Hb. unfold kf. destruct (N.eqb_spec (kk a i') (kk b i)) as [E|E].
   - destruct (Hd i' i a b Ha Hb E) as [-> ->]. now rewrite N.eqb_refl, Nat.eqb_refl.
   - destruct (N.eqb_spec i' i) as [->|]; [|reflexivity]. destruct (Nat.eqb_spec a b) as [->|]; [congruence|reflexivity].
 Qed.
-
-Ltac keys :=
-  unfold k0, k1, k2, k3, kupd;
-  change (H (H (H (idkey ?i)))) with (kk 3 i); change (H (H (idkey ?i))) with (kk 2 i);
-  change (H (idkey ?i)) with (kk 1 i); change (idkey ?i) with (kk 0 i);
-  rewrite ?key_eqb by lia; cbn [Nat.eqb andb].
 
 (* the SetData sequences refine the slot updates *)
 Lemma apply_w_sim : forall st w k' i', view_cur (k_apply_w st w) k' i' = apply_w (view_cur st) w k' i'.
 Proof.
   intros st w k' i'. destruct w as [|k i ap stake acct|k i stake acct stat|k i|k i lft];
-    cbn [k_apply_w apply_w]; [reflexivity| | | |]; unfold view_cur, updr;
-    unfold k0, k1, k2, k3, kupd;
-    change (H (H (H (idkey i')))) with (kk 3 i'); change (H (H (idkey i'))) with (kk 2 i');
-    change (H (idkey i')) with (kk 1 i'); change (idkey i') with (kk 0 i');
-    change (H (H (H (idkey i)))) with (kk 3 i); change (H (H (idkey i))) with (kk 2 i);
-    change (H (idkey i)) with (kk 1 i); change (idkey i) with (kk 0 i);
-    rewrite ?key_eqb by lia; cbn [Nat.eqb andb];
+    cbn [KeyModel.k_apply_w apply_w]; [reflexivity| | | |]; unfold KeyModel.view_cur, updr, kupd;
+    rewrite ?k0_kf, ?k1_kf, ?k2_kf, ?k3_kf; rewrite ?key_eqb by lia; cbn [Nat.eqb andb];
     destruct (N.eqb_spec k' k) as [->|]; cbn [andb]; try reflexivity;
-    destruct (N.eqb_spec i' i) as [->|]; cbn [andb rd_info rd_stake rd_acct rd_stat]; try reflexivity.
+    destruct (N.eqb_spec i' i) as [->|]; cbn [andb rd_info rd_stake rd_acct rd_stat]; try reflexivity;
+    rewrite ?Bool.andb_false_r; cbn [andb rd_info rd_stake rd_acct rd_stat]; reflexivity.
 Qed.
 
 Lemma k_execute_sim : forall e h t s,
@@ -186,7 +182,7 @@ Lemma led_inv_ext : forall A I W a b, st_eq a b -> led_inv A I W b -> led_inv A 
 Proof.
   intros A I W a b E (Hwf & Hb & Hp & He & Hbu & Hw). pose proof E as (Hc & _ & Eb & Ep & Ee & Ebu).
   unfold led_inv, wealth in *. rewrite Eb, Ep, Ee, Ebu, (locked_sum_ext I (cur a) (cur b) Hc).
-  repeat split; try assumption; apply (reg_wf_ext I a b E); exact Hwf.
+  exact (conj (reg_wf_ext I a b E Hwf) (conj Hb (conj Hp (conj He (conj Hbu Hw))))).
 Qed.
 
 (* an account controls at most one miner - key level, under the key guard AND the iterator guard *)
@@ -256,42 +252,90 @@ Proof.
 Qed.
 
 (* ---------- without the guard: the three aliasing attacks inside the model ---------- *)
+(* For ANY hash H, any storage st and any two ids x, y: if the bytes of y are the hash (double, triple hash) of the
+   bytes of x, then (a) GetMinerById(y) finds no record although the key is in use - the stake / account / status
+   cell of x does not parse as json - so AddMiner goes on, and (b) the SetData sequence that registers y rewrites
+   what GetMinerById(x) reads. The side conditions only say that the chain of x has no short cycle. *)
 Section Refuted.
 Variable H : key -> key.
-Variable X : key.                     (* the victim's id bytes *)
+Variable idkey : N -> key.
 Variable acct_u64 : N -> N.
-(* the chain X, H X, .., H^6 X has no repetition (any practical hash and id) *)
-Hypothesis chain : NoDup [X; H X; H (H X); H (H (H X)); H (H (H (H X))); H (H (H (H (H X)))); H (H (H (H (H (H X)))))].
-
-Definition env_a : env := {| ids := [1%N; 2%N]; contract := fun _ => false |}.
-Definition rich2 : bals := fun a => if (N.eqb a 2 || N.eqb a 3)%bool then tok 10000 else 0.
-Definition k_empty : kst :=
-  {| kcur := fun _ _ => None; ktrie := fun _ _ => None; kbal := rich2; kpend := []; kesc := []; kburned := 0 |}.
-
-(* id 1 = X, id 2 = H^n X *)
-Definition idk (n : nat) (i : N) : key := if N.eqb i 1 then X else Hn H n X.
-
-Definition k_blocks (n : nat) (bs : list (N * list tx)) : kst :=
-  fold_left (fun s b => k_end_block (fst b) [] (fst (k_run_txs H (idk n) acct_u64 env_a (fst b) (snd b) s))) bs k_empty.
-
-Ltac chain_neq :=
-  repeat match goal with
-  | Hc : NoDup (_ :: _) |- _ => inversion Hc as [|? ? ?Hn ?Hr]; clear Hc; subst
-  end.
+Notation view_cur := (view_cur H idkey acct_u64).
+Notation k_apply_w := (k_apply_w H idkey).
+Notation X1 x := (H (idkey x)).
+Notation X2 x := (H (H (idkey x))).
+Notation X3 x := (H (H (H (idkey x)))).
+Notation X4 x := (H (H (H (H (idkey x))))).
+Notation X5 x := (H (H (H (H (H (idkey x)))))).
+Notation X6 x := (H (H (H (H (H (H (idkey x))))))).
 
 Lemma neq_eqb : forall a b : N, a <> b -> N.eqb a b = false.
 Proof. intros a b Hn. now apply N.eqb_neq. Qed.
 
-(* S (account 2) registers validator X with stake 800; T (account 3) registers a validator with id H X and stake 400:
-   accepted, and afterwards GetMinerById(X) reads the json prefix as X's stake. *)
-Theorem alias_stake_refuted :
-  let s := k_blocks 1 [(100%N, [TApply 2 true 0 1 800 0 true]); (101%N, [TApply 3 true 0 2 400 0 true])] in
-  s_stake (cur (view H (idk 1) acct_u64 s) 0%N 1%N) = JSONPFX /\
-  by_id (view H (idk 1) acct_u64 s) 0%N 2%N <> None.
+(* y = H(x): the json of y lands on the stake slot of x *)
+Theorem alias_stake_refuted : forall st k x y n ap stake acct,
+  idkey y = X1 x -> X1 x <> X2 x -> X1 x <> X3 x -> X1 x <> X4 x ->
+  st k (k1 H idkey x) = Some (CStake n) ->
+  rd_info (st k (k0 idkey y)) = None /\
+  s_stake (view_cur (k_apply_w st (WNew k y ap stake acct)) k x) = JSONPFX.
 Proof.
-  pose proof chain as Hc. chain_neq.
-  cbv [k_blocks fold_left fst snd k_run_txs k_run_tx k_execute tx_src].
-  cbn -[H N.eqb JSONPFX tok Z.ltb].
-Abort.
+  intros st k x y n ap stake acct Ey N2 N3 N4 Hs. unfold k0, k1 in *. split; [rewrite Ey, Hs; reflexivity|].
+  cbn [KeyModel.k_apply_w]. unfold KeyModel.view_cur, kupd, k0, k1, k2, k3. cbn [s_stake]. rewrite !Ey, N.eqb_refl. cbn [andb].
+  rewrite (neq_eqb _ _ N4), (neq_eqb _ _ N3), (neq_eqb _ _ N2), N.eqb_refl. reflexivity.
+Qed.
 
+(* y = H(H(x)): the json of y lands on the account slot of x: GetMinerIdByAccount(owner) misses x, the owner can
+   never refund *)
+Theorem alias_account_refuted : forall st k x y a ap stake acct,
+  idkey y = X2 x -> X2 x <> X3 x -> X2 x <> X4 x -> X2 x <> X5 x ->
+  st k (k2 H idkey x) = Some (CAcct a) ->
+  rd_info (st k (k0 idkey y)) = None /\
+  s_acct (view_cur (k_apply_w st (WNew k y ap stake acct)) k x) = junk_json y.
+Proof.
+  intros st k x y a ap stake acct Ey N3 N4 N5 Hs. unfold k0, k2 in *. split; [rewrite Ey, Hs; reflexivity|].
+  cbn [KeyModel.k_apply_w]. unfold KeyModel.view_cur, kupd, k0, k1, k2, k3. cbn [s_acct]. rewrite !Ey, N.eqb_refl. cbn [andb].
+  rewrite (neq_eqb _ _ N5), (neq_eqb _ _ N4), (neq_eqb _ _ N3), N.eqb_refl. reflexivity.
+Qed.
+
+(* y = H(H(H(x))): the json of y lands on the status slot of an aborted x, which reads as normal again *)
+Theorem alias_status_refuted : forall st k x y ap stake acct,
+  idkey y = X3 x -> X3 x <> X4 x -> X3 x <> X5 x -> X3 x <> X6 x ->
+  st k (k3 H idkey x) = Some (CStat 1) ->
+  rd_info (st k (k0 idkey y)) = None /\
+  s_stat (view_cur st k x) = 1%N /\
+  s_stat (view_cur (k_apply_w st (WNew k y ap stake acct)) k x) = 0%N.
+Proof.
+  intros st k x y ap stake acct Ey N4 N5 N6 Hs. unfold k0, k3 in *. split; [rewrite Ey, Hs; reflexivity|].
+  split; [unfold KeyModel.view_cur, k3; cbn [s_stat]; rewrite Hs; reflexivity|].
+  cbn [KeyModel.k_apply_w]. unfold KeyModel.view_cur, kupd, k0, k1, k2, k3. cbn [s_stat]. rewrite !Ey, N.eqb_refl. cbn [andb].
+  rewrite (neq_eqb _ _ N6), (neq_eqb _ _ N5), (neq_eqb _ _ N4), N.eqb_refl. reflexivity.
+Qed.
 End Refuted.
+
+(* end to end, on a concrete instance (H x = x + 1; id 1 = key 10, id 2 = key 11 = H(key 10)): both MinerApply
+   transactions succeed through the whole key-level loop, and the stake accounting equation of k_stake_step fails
+   for miner 1 in the second transaction - so the guard keys_disjoint cannot be dropped *)
+Definition Hc (x : key) : key := (x + 1)%N.
+Definition idc (i : N) : key := (9 + i)%N.
+Definition env_a : env := {| ids := [1%N; 2%N]; contract := fun _ => false |}.
+Definition rich2 : bals := fun a => if (N.eqb a 2 || N.eqb a 3)%bool then tok 10000 else 0.
+Definition k_empty : kst :=
+  {| kcur := fun _ _ => None; ktrie := fun _ _ => None; kbal := rich2; kpend := []; kesc := []; kburned := 0 |}.
+Definition k_after1 : kst :=
+  k_end_block 100 [] (fst (k_run_tx Hc idc (fun _ => 0%N) env_a 100 (TApply 2 true 0 1 800 0 true) k_empty)).
+
+Theorem stake_accounting_keys_refuted :
+  let t := TApply 3 true 0 2 400 0 true in
+  let r := k_run_tx Hc idc (fun _ => 0%N) env_a 101 t k_after1 in
+  snd r = ROk /\
+  stake_of (view Hc idc (fun _ => 0%N) k_after1) 1 = 800 /\
+  booked t (snd r) (view Hc idc (fun _ => 0%N) k_after1) 1 = 0 /\
+  stake_of (view Hc idc (fun _ => 0%N) (fst r)) 1 = Z.of_N JSONPFX.
+Proof. vm_compute. repeat split; reflexivity. Qed.
+
+(* keys_disjoint is satisfiable *)
+Lemma keys_disjoint_example : keys_disjoint (fun x => 10 * x)%N (fun i => 10 * i + 1)%N.
+Proof.
+  intros i j a b Ha Hb.
+  destruct a as [|[|[|[|a]]]]; try lia; destruct b as [|[|[|[|b]]]]; try lia; cbn [Hn]; intros E; split; lia.
+Qed.
